@@ -175,8 +175,8 @@ GemG ==
     NUM  |-> T({"0", "1", "1.0", "1.0.0", "1.1", "2.0.0", "1.0.1", "1.10", "1.2.3.4", "0.1", "1.01", "1.0.0.0",
                 "2", "2.0", "1." \o D20, "1." \o ZBig64, "1." \o ZBig65, "1." \o Big64, "1.9"}, "G1"),
     G1   |-> T({"", ".rc1", ".rc.1", ".beta", ".beta.2", ".a4", "-alpha", "-alpha.1", ".pre", ".a", ".b", ".RC1",
-                ".rc2", ".rc10", "-1", ".pre.1", ".z", ".alpha", ".Beta"}, "G2"),
-    G2   |-> T({"", ".1", ".0", ".a", "-b"}, "END"),
+                ".rc2", ".rc10", "-1", ".pre.1", ".z", ".alpha", ".Beta", ".rc0", ".rc", ".a0", ".beta.0"}, "G2"),
+    G2   |-> T({"", ".1", ".0", ".a", "-b", ".c.0", ".0.b"}, "END"),
     END  |-> {} ]
 
 -----------------------------------------------------------------------------
